@@ -12,13 +12,45 @@ PY = "/venv/bin/python"
 REPO = os.environ.get("VERIF_REPO", "/repo")
 
 
+def numba_cache_dir(mode):
+    """On-disk JIT cache keyed by a digest of EVERY source file of the package under test.
+
+    Numba keys a cached kernel by the stamp of the file that defines it and by its signature only: neither the jit
+    options (they come from `_common.jitted`) nor callees defined in other files are part of the key, so a cache filled
+    before an edit of `_common.py` keeps serving the old machine code of every kernel whose own file is unchanged.  A
+    check that rebuilds "from the current working tree" must therefore never reuse a cache filled from other sources."""
+    import glob
+    import hashlib
+    h = hashlib.sha256()
+    for f in sorted(glob.glob(os.path.join(REPO, "fteikpy", "**", "*.py"), recursive=True)):
+        h.update(os.path.relpath(f, REPO).encode() + b"\0")
+        with open(f, "rb") as fh:
+            h.update(hashlib.sha256(fh.read()).digest())
+    return os.path.join(VERIF, ".cache", "numba", f"{mode}-{h.hexdigest()[:16]}")
+
+
+def prune_numba_caches(keep=4):
+    """Keep the `keep` most recently used cache directories per mode (changed trees leave one behind each)."""
+    import shutil
+    root = os.path.join(VERIF, ".cache", "numba")
+    if not os.path.isdir(root):
+        return
+    for mode in ("jit", "boundscheck"):
+        ds = sorted((d for d in os.listdir(root) if d.startswith(mode + "-")),
+                    key=lambda d: os.path.getmtime(os.path.join(root, d)), reverse=True)
+        cur = os.path.basename(numba_cache_dir(mode))
+        for d in ds[keep:]:
+            if d != cur:
+                shutil.rmtree(os.path.join(root, d), ignore_errors=True)
+
+
 def env_for(mode, threads=None):
     env = dict(os.environ)
     env["VERIF_REPO"] = REPO
     env["PYTHONPATH"] = REPO
     env["PYTHONHASHSEED"] = "0"
     env["VERIF_SIGS"] = os.path.join(VERIF, "coq", "gen", "sigs.json")
-    env["NUMBA_CACHE_DIR"] = os.path.join(VERIF, ".cache", "numba", mode)
+    env["NUMBA_CACHE_DIR"] = numba_cache_dir(mode)
     env.pop("NUMBA_DISABLE_JIT", None)
     env.pop("NUMBA_BOUNDSCHECK", None)
     if mode == "interp":
